@@ -1486,6 +1486,45 @@ def line_formats(ctx):
             ctx.disagree("line", dict(meta, line=line), i, m)
 
 
+def refused_members(ctx):
+    """members of an enumeration that have no XML form (MIXED, CUSTOM ...) pass `validate()` and are refused by `to_xml()`: the refusal
+    has to come before the setter creates or removes anything - the element tree of the owner is compared before / after"""
+    from lxml import etree
+    from pptx import Presentation
+    from pptx.chart.data import CategoryChartData
+    from pptx.enum.chart import XL_CHART_TYPE, XL_LABEL_POSITION, XL_LEGEND_POSITION
+    from pptx.enum.dml import MSO_LINE_DASH_STYLE, MSO_PATTERN, MSO_THEME_COLOR
+    from pptx.enum.text import MSO_ANCHOR
+
+    prs = Presentation(); sl = prs.slides.add_slide(prs.slide_layouts[6])
+    tb = sl.shapes.add_textbox(0, 0, 9999, 9999)
+    cd = CategoryChartData(); cd.categories = ["a", "b"]; cd.add_series("s", (1, 2))
+    ch = sl.shapes.add_chart(XL_CHART_TYPE.COLUMN_CLUSTERED, 0, 0, 999999, 999999, cd).chart
+    ch.has_legend = True
+    pl = ch.plots[0]; pl.has_data_labels = True
+    sp = sl.shapes.add_shape(1, 0, 0, 99, 99); sp.fill.patterned()
+    sp2 = sl.shapes.add_shape(1, 0, 0, 99, 99); sp2.fill.solid()
+    sp3 = sl.shapes.add_shape(1, 0, 0, 99, 99)
+    table = [("line.dash_style", sp3._element, lambda: sp3.line, "dash_style", MSO_LINE_DASH_STYLE.DASH_STYLE_MIXED),
+             ("legend.position", ch._chartSpace, lambda: ch.legend, "position", XL_LEGEND_POSITION.CUSTOM),
+             ("text_frame.vertical_anchor", tb._element, lambda: tb.text_frame, "vertical_anchor", MSO_ANCHOR.MIXED),
+             ("data_labels.position", ch._chartSpace, lambda: pl.data_labels, "position", XL_LABEL_POSITION.MIXED),
+             ("fill.pattern", sp._element, lambda: sp.fill, "pattern", MSO_PATTERN.MIXED),
+             ("fore_color.theme_color", sp2._element, lambda: sp2.fill.fore_color, "theme_color", MSO_THEME_COLOR.MIXED)]
+    for name, root, owner, attr, member in table:
+        obj = owner()
+        before = etree.tostring(root)
+        ctx.case(key=("refused-member", name)); ctx.count("refused-member-probes")
+        try:
+            setattr(obj, attr, member)
+        except ValueError:
+            if etree.tostring(root) != before:
+                ctx.fail("refused-but-changed:" + name, f"{name} = {member!r} (a member without an XML form) is refused with ValueError AFTER the XML was changed: "
+                         f"the owner's element differs from what it was before the call", {"setter": name, "value": repr(member)})
+            continue
+        ctx.fail("domain:" + name, f"{name} = {member!r} is accepted although the member has no XML form", {"setter": name, "value": repr(member)})
+
+
 _ELM_ATTRS = ("_element", "_xPr", "_xFill", "_rPr", "_r", "_p", "_pPr", "_txBody", "_tc", "_tr", "_gridCol", "_ln", "_ser", "_chartSpace", "_gs", "_tbl",
               "_pic", "_sp", "_cxnSp", "_graphicFrame", "_xAx", "_dLbls", "_legend", "_title", "_marker", "_parent", "_bodyPr", "_hlink", "_prstGeom")
 
@@ -1821,6 +1860,7 @@ def correspond(ctx):
     spacings(ctx)
     autofits(ctx)
     line_formats(ctx)
+    refused_members(ctx)
     held_proxies(ctx)
     rng = ctx.rng
     reps = 6 if ctx.quick else 20
